@@ -66,9 +66,10 @@ func runC18(r *Run) {
 	// The conflict search = the one function reachable from Reconcile that tests a node's labels
 	// against the selector of a setting (anchored by what it does; helpers that only hand the lists
 	// on, or that prepare the sorted slice, are not it).
+	c18FindPredicates(r, r.Prog.RepoFuncs())
 	var cf *ssa.Function
 	for _, fn := range sortedFuncs(reach) {
-		if !r.Prog.IsRuleSite(fn) {
+		if !r.Prog.IsRuleSite(fn) || c18Predicates[fn] != nil {
 			continue
 		}
 		for _, ci := range callsIn(fn) {
@@ -256,11 +257,12 @@ type c18Match struct {
 	nRoot     ssa.Value // root of the node whose labels are matched
 	byParam   bool      // nRoot is a labels parameter of the scan helper
 	converter string
+	errSource string // callee whose error result is the selector conversion error
 }
 
 // c18MatchInfo recognises `sel.Matches(labels.Set(N.Labels))` with sel converted from
 // &E.Spec.NodeSelector.
-func c18MatchInfo(v ssa.Value) (*c18Match, bool) {
+func c18MatchDirect(v ssa.Value) (*c18Match, bool) {
 	c, ok := v.(*ssa.Call)
 	if !ok || !c.Call.IsInvoke() || c.Call.Method.Name() != "Matches" || len(c.Call.Args) != 1 {
 		return nil, false
@@ -286,7 +288,7 @@ func c18MatchInfo(v ssa.Value) (*c18Match, bool) {
 		// the labels of the node are handed in (scan extracted into a helper): the caller is checked
 		// to pass the labels and the name of one node
 		if mt, isM := lp.Type().Underlying().(*types.Map); isM && types.Identical(mt.Elem(), types.Typ[types.String]) {
-			return &c18Match{call: c, eRoot: eRoot, nRoot: lp, byParam: true, converter: calleeName(&conv.Call)}, true
+			return &c18Match{call: c, eRoot: eRoot, nRoot: lp, byParam: true, converter: calleeName(&conv.Call), errSource: calleeName(&conv.Call)}, true
 		}
 		return nil, false
 	}
@@ -306,7 +308,104 @@ func c18MatchInfo(v ssa.Value) (*c18Match, bool) {
 	if nRoot == nil || baseTypeName(nRoot.Type()) != pkgCoreV1+".Node" {
 		return nil, false
 	}
-	return &c18Match{call: c, eRoot: eRoot, nRoot: nRoot, converter: calleeName(&conv.Call)}, true
+	return &c18Match{call: c, eRoot: eRoot, nRoot: nRoot, converter: calleeName(&conv.Call), errSource: calleeName(&conv.Call)}, true
+}
+
+// c18Predicates: repository functions that are match predicates — f(setting, node) whose boolean
+// result is, on every return, either the recognised Matches(selector of the setting parameter,
+// labels of the node parameter) or false (next to the conversion error). Filled per run.
+var c18Predicates map[*ssa.Function]*c18Pred
+
+type c18Pred struct {
+	setting, node *ssa.Parameter
+	converter     string
+}
+
+// c18FindPredicates summarises the candidate helpers among fns.
+func c18FindPredicates(r *Run, fns []*ssa.Function) {
+	c18Predicates = map[*ssa.Function]*c18Pred{}
+	for _, fn := range fns {
+		if !r.Prog.IsRuleSite(fn) || len(fn.Blocks) == 0 {
+			continue
+		}
+		res := fn.Signature.Results()
+		if res.Len() == 0 || res.Len() > 2 || !types.Identical(res.At(0).Type(), types.Typ[types.Bool]) {
+			continue
+		}
+		var pr *c18Pred
+		ok, nMatch := true, 0
+		var leaves func(v ssa.Value, seen map[ssa.Value]bool)
+		leaves = func(v ssa.Value, seen map[ssa.Value]bool) {
+			if seen[v] {
+				return
+			}
+			seen[v] = true
+			if phi, isPhi := v.(*ssa.Phi); isPhi {
+				for _, e := range phi.Edges {
+					leaves(e, seen)
+				}
+				return
+			}
+			if b, isC := constBool(v); isC {
+				if b {
+					ok = false
+				}
+				return
+			}
+			m, isM := c18MatchDirect(v)
+			if !isM || m.byParam {
+				ok = false
+				return
+			}
+			sp, isSP := m.eRoot.(*ssa.Parameter)
+			np, isNP := m.nRoot.(*ssa.Parameter)
+			if !isSP || !isNP || (pr != nil && (pr.setting != sp || pr.node != np)) {
+				ok = false
+				return
+			}
+			pr = &c18Pred{setting: sp, node: np, converter: m.converter}
+			nMatch++
+		}
+		for _, b := range fn.Blocks {
+			if ret := returnOf(b); ret != nil {
+				leaves(ret.Results[0], map[ssa.Value]bool{})
+			}
+		}
+		if ok && nMatch > 0 && pr != nil {
+			c18Predicates[fn] = pr
+		}
+	}
+}
+
+// c18MatchInfo recognises a match fact: the direct form, or the result of a match predicate
+// applied to (setting, node).
+func c18MatchInfo(v ssa.Value) (*c18Match, bool) {
+	if m, ok := c18MatchDirect(v); ok {
+		return m, true
+	}
+	var call *ssa.Call
+	switch x := v.(type) {
+	case *ssa.Call:
+		call = x
+	case *ssa.Extract:
+		if x.Index == 0 {
+			call, _ = x.Tuple.(*ssa.Call)
+		}
+	}
+	if call == nil {
+		return nil, false
+	}
+	h := staticCallee(&call.Call)
+	pr := c18Predicates[h]
+	if pr == nil {
+		return nil, false
+	}
+	eRoot, ep := accessPath(call.Call.Args[paramIndex(pr.setting)])
+	nRoot, np := accessPath(call.Call.Args[paramIndex(pr.node)])
+	if len(ep) != 0 || len(np) != 0 || baseTypeName(eRoot.Type()) != c18SettingKind || baseTypeName(nRoot.Type()) != pkgCoreV1+".Node" {
+		return nil, false
+	}
+	return &c18Match{call: call, eRoot: eRoot, nRoot: nRoot, converter: pr.converter, errSource: calleeName(&call.Call)}, true
 }
 
 type c18Scan struct {
@@ -586,7 +685,7 @@ func c18ConflictSearch(r *Run, cf *ssa.Function) *c18Scan {
 		}
 		rpos := r.Prog.Pos(instrPos(ret))
 		if ex, isEx := res.(*ssa.Extract); isEx {
-			if c, isC := ex.Tuple.(*ssa.Call); isC && calleeName(&c.Call) == mi.converter {
+			if c, isC := ex.Tuple.(*ssa.Call); isC && calleeName(&c.Call) == mi.errSource {
 				nSelErr++
 				o := r.Check("C18.R4", "selector error returned", rpos, fnName, "an unusable selector ends the search with an error", true, "")
 				o.Trivial = true
